@@ -239,51 +239,46 @@ theorem resolveDirect_eq (name : Str) : resolveDirect name = Spec.directResult n
     simp only [List.isEmpty_cons, Bool.false_eq_true, ↓reduceIte]
     exact direct_core (c :: cs) host port sp h2
 
-theorem srvTargetsGo_eq (name : Str) (rs : List (Str × Nat)) (h : ∀ r ∈ rs, r.1 ≠ []) :
-    srvTargetsGo name rs = .ok (Spec.srvTargets name rs) := by
+theorem srvTarget_eq (name : Str) (r : Str × Nat) :
+    srvTarget name r = if Spec.rootTarget r then none else some ⟨Spec.stripDot r.1 ++ ':' :: natStr r.2, name, name⟩ := by
+  unfold srvTarget Spec.rootTarget Spec.stripDot
+  by_cases hd : r.1.getLast? = some '.'
+  · simp [hd]
+  · simp [hd]
+
+theorem srvTargetsGo_eq (name : Str) (rs : List (Str × Nat)) :
+    srvTargetsGo name rs = Spec.srvTargets name rs := by
+  unfold srvTargetsGo Spec.srvTargets
   induction rs with
   | nil => rfl
   | cons r rest ih =>
-    have hr : r.1 ≠ [] := h r (by simp)
-    have ih' := ih (fun x hx => h x (by simp [hx]))
-    unfold srvTargetsGo
-    have ht : srvTarget name r = .ok ⟨Spec.stripDot r.1 ++ ':' :: natStr r.2, name, name⟩ := by
-      unfold srvTarget Spec.stripDot
-      cases hl : r.1.getLast? with
-      | none => exact absurd (List.getLast?_eq_none_iff.mp hl) hr
-      | some last =>
-        by_cases hd : last = '.'
-        · subst hd; simp
-        · have : (last == '.') = false := by simpa using hd
-          have h2 : ¬ (some last = some '.') := by simpa using hd
-          simp [this, h2]
-    rw [ht, ih']
-    simp [Spec.srvTargets]
+    rw [List.filterMap_cons, srvTarget_eq, List.filter_cons]
+    cases hr : Spec.rootTarget r
+    · simp [ih]
+    · simp [ih]
 
-/-- steps 4-6 (3.3-3.5): the SRV part of the code is the specification's, for a sane resolver -/
+/-- steps 4-6 (3.3-3.5): the SRV part of the code is the specification's, whatever the targets of the records -/
 theorem handleNoWellKnown_eq (srv : Str → Str → SrvAnswer) (n : Str) (hs : Spec.SrvSane srv) :
     handleNoWellKnown srv n = .ok (Spec.srvSteps srv n) := by
   unfold handleNoWellKnown lookupSRV Spec.srvSteps
   cases h1 : srv "matrix-fed".toList n with
   | records rs =>
-    obtain ⟨hne, htg⟩ := hs _ _ _ h1
     cases rs with
-    | nil => exact absurd rfl hne
+    | nil => exact absurd rfl (hs _ _ _ h1)
     | cons r rest =>
       simp only [Spec.found, Bool.not_false, List.length_cons, gt_iff_lt, Nat.zero_lt_succ, decide_true, Bool.and_self, ↓reduceIte]
-      exact srvTargetsGo_eq n (r :: rest) htg
+      rw [srvTargetsGo_eq]
   | dnsError => simp [Spec.found, port8448]
   | otherError => simp [Spec.found, port8448]
   | notFound =>
     simp only [Spec.found]
     cases h2 : srv "matrix".toList n with
     | records rs =>
-      obtain ⟨hne, htg⟩ := hs _ _ _ h2
       cases rs with
-      | nil => exact absurd rfl hne
+      | nil => exact absurd rfl (hs _ _ _ h2)
       | cons r rest =>
         simp only [Spec.found, Bool.not_false, List.length_cons, gt_iff_lt, Nat.zero_lt_succ, decide_true, Bool.and_self, ↓reduceIte]
-        exact srvTargetsGo_eq n (r :: rest) htg
+        rw [srvTargetsGo_eq]
     | dnsError => simp [Spec.found, port8448]
     | otherError => simp [Spec.found, port8448]
     | notFound => simp [Spec.found, port8448]
